@@ -275,7 +275,8 @@ func layoutBackgroundLayer(box_ Box, page *bo.PageBox, resolution pr.DimOrS, ima
 
 	repeatX, repeatY := repeat[0], repeat[1]
 
-	if repeatX == "round" {
+	// (an image without width or height is not drawn: nothing to round)
+	if repeatX == "round" && imageWidth != 0 {
 		nRepeats := utils.MaxInt(1, int(math.Round(float64(positioningWidth/imageWidth))))
 		newWidth := positioningWidth / pr.Float(nRepeats)
 		positionX = pr.Float(0) // Ignore background-position for this dimension
@@ -284,7 +285,7 @@ func layoutBackgroundLayer(box_ Box, page *bo.PageBox, resolution pr.DimOrS, ima
 		}
 		imageWidth = newWidth
 	}
-	if repeatY == "round" {
+	if repeatY == "round" && imageHeight != 0 {
 		nRepeats := utils.MaxInt(1, int(math.Round(float64(positioningHeight/imageHeight))))
 		newHeight := positioningHeight / pr.Float(nRepeats)
 		positionY = pr.Float(0) // Ignore background-position for this dimension
